@@ -43,7 +43,19 @@ func (vc *VC) ghostHV(pkg *types.Package, name string) (hv, sort string, t types
 	case "ints":
 		sort = "(Array " + vc.idxSort() + " " + vc.idxSort() + ")"
 	default:
-		unsup("ghost var %s: unsupported type %s", name, g.Type)
+		// a pointer to a named type of the declaring package: "*T"
+		var nt types.Type
+		if strings.HasPrefix(f[0], "*") {
+			if p := vc.eng.typesPkg(g.PkgPath); p != nil {
+				if tn, ok := p.Scope().Lookup(f[0][1:]).(*types.TypeName); ok {
+					nt = types.NewPointer(tn.Type())
+				}
+			}
+		}
+		if nt == nil {
+			unsup("ghost var %s: unsupported type %s", name, g.Type)
+		}
+		sort, t = SRef, nt
 	}
 	vc.regHeap(hv, sort, t)
 	// "ghost var n int range lo hi": an assumed invariant of the ghost variable
